@@ -157,6 +157,9 @@ func (e *Engine) addrPattern(addr ssa.Value) string {
 			}
 			st := fa.X.Type().Underlying().(*types.Pointer).Elem()
 			f := st.Underlying().(*types.Struct).Field(fa.Field)
+			if e.isEmbeddedObject(f) {
+				return "H|" + e.P.relType(f.Type()) + "|" + path + "*"
+			}
 			path = "." + f.Name() + path
 			if inner, ok := fa.X.(*ssa.FieldAddr); ok {
 				cur = inner
@@ -237,6 +240,7 @@ func (e *Engine) instrWrites(fn *ssa.Function, in ssa.Instruction, set map[strin
 	case *ssa.Go:
 		e.callWrites(fn, &x.Call, set)
 		set["G|cnt|go:*"] = true
+		set["G|arg|go:*"] = true
 	}
 }
 
